@@ -68,8 +68,29 @@ inline std::unique_lock<std::recursive_mutex> enter(void const* p, bool is_load)
   return lk;
 }
 #define SHIM_ENTER(p, is_load) auto shim_lk_ = shim::enter(p, is_load)
+// an atomic that only exists inside a call (flush_log's local flag) gets its name when it is constructed by logical thread 0
+inline char const* g_autoname = nullptr;
+inline int g_autonamed = 0;
+inline void born(void const* p)
+{
+  if (g_autoname == nullptr || g_thr != 0) return;
+  std::lock_guard<std::recursive_mutex> lk(g_mx);
+  g_names[p] = g_autoname;
+  g_autoname = nullptr;
+  ++g_autonamed;
+}
+inline void died(void const* p)
+{
+  if (g_autonamed == 0) return;
+  std::lock_guard<std::recursive_mutex> lk(g_mx);
+  if (g_names.erase(p)) --g_autonamed;
+}
+#define SHIM_BORN(p) shim::born(p)
+#define SHIM_DIED(p) shim::died(p)
 #else
 #define SHIM_ENTER(p, is_load) (void)0
+#define SHIM_BORN(p) (void)0
+#define SHIM_DIED(p) (void)0
 #endif
 }
 
@@ -82,7 +103,8 @@ struct verif_atomic
   std::vector<Msg> h;
   size_t view[shim::NT]{};
   verif_atomic() noexcept { h.push_back({T{}, {}, {}}); }
-  verif_atomic(T v) noexcept { h.push_back({v, {}, {}}); }
+  verif_atomic(T v) noexcept { h.push_back({v, {}, {}}); SHIM_BORN(this); }
+  ~verif_atomic() { SHIM_DIED(this); }
   verif_atomic(verif_atomic const&) = delete;
   verif_atomic& operator=(verif_atomic const&) = delete;
   static long long as_ll(T v)
